@@ -18,6 +18,7 @@ package cloudblob
 
 import (
 	"context"
+	"crypto/sha256"
 	"errors"
 	"fmt"
 	"io"
@@ -117,7 +118,11 @@ func (e *ruleSetEndpoint) readRuleSet(ctx context.Context, bucket *blob.Bucket, 
 
 	defer reader.Close()
 
-	contents, err := config.ParseRules(attrs.ContentType, reader, false)
+	// not every object has an MD5 hash (e.g. S3 objects created by multipart uploads). Without
+	// it, changes of the rule set could not be recognized.
+	digest := sha256.New()
+
+	contents, err := config.ParseRules(attrs.ContentType, io.TeeReader(reader, digest), false)
 	if err != nil {
 		return nil, errorchain.
 			NewWithMessage(heimdall.ErrInternal, "failed to decode received rule set").
@@ -125,6 +130,9 @@ func (e *ruleSetEndpoint) readRuleSet(ctx context.Context, bucket *blob.Bucket, 
 	}
 
 	contents.Hash = attrs.MD5
+	if len(contents.Hash) == 0 {
+		contents.Hash = digest.Sum(nil)
+	}
 	contents.Source = fmt.Sprintf("%s@%s", key, e.ID())
 	contents.ModTime = attrs.ModTime
 
